@@ -435,6 +435,55 @@ def template_check(fn, conv, s):
     return None
 
 
+def validate_model(trees):
+    """validation (not proof) of the ASSUMED ElementTree / str model of contracts/C19.py against the real
+    library on the enumerated trees; -> None or a description of the first disagreement"""
+    names = ["e", "num", "chr", "naryPr", "dPr", "begChr", "t", "mr"]
+    for d in trees:
+        root = build(d)
+        parent = {c: p for p in root.iter() for c in p}
+        for e in root.iter():
+            kids = list(e)
+            for a in names:
+                got = e.find(q(a))
+                want = next((c for c in kids if c.tag == q(a)), None)
+                if got is not want:
+                    return f"find('{a}') is not the first child with that tag"
+                if e.findall(q(a)) != [c for c in kids if c.tag == q(a)]:
+                    return f"findall('{a}') is not the {a} children in order"
+                got = e.find(".//" + q(a))
+                if got is not None:
+                    anc, up = False, parent.get(got)
+                    while up is not None:
+                        anc = anc or up is e
+                        up = parent.get(up)
+                    if not anc or got.tag != q(a) or got is e:
+                        return f"find('.//{a}') is not a proper descendant with that tag"
+                elif any(c.tag == q(a) for c in e.iter() if c is not e):
+                    return f"find('.//{a}') is None although a descendant exists"
+                for b in names[:4]:
+                    got = e.find(q(a) + "/" + q(b))
+                    want = next((g for c in kids if c.tag == q(a) for g in c if g.tag == q(b)), None)
+                    if got is not want:
+                        return f"find('{a}/{b}') is not the first {b} child of an {a} child"
+            if e.get(q("no-such-attribute")) is not None or e.get(q("no-such-attribute"), "dflt") != "dflt":
+                return "get() of a missing attribute"
+            if not isinstance(e.tag, str) or not (e.text is None or isinstance(e.text, str)):
+                return "tag/text kinds"
+    cnt = lambda s: (s.count("{"), s.count("}"), sum(1 for ch in s if not ch.isspace()))
+    for s_ in ["", " {a} ", "\t(\n", " \u00a0x\u2003", "}{ "]:
+        if cnt(s_.strip()) != cnt(s_):
+            return "strip() changes the brace / non-space counts"
+        for sep in (", ", " & ", ""):
+            lst = [s_, "x", s_]
+            j = sep.join(lst)
+            if any(cnt(j)[k] != sum(cnt(x)[k] for x in lst) + 2 * cnt(sep)[k] for k in range(3)):
+                return "join() counts"
+        if len(s_.split("}")) < 1:
+            return "split()"
+    return None
+
+
 def greek_check(m):
     """the symbol table and the text mapping, natively: every key alone and inside a run"""
     conv, fn = m.convert_greek_and_symbols, m.omml_to_latex
@@ -513,6 +562,10 @@ def find(req):
                 return {"reproduced": True, "target": "omml_to_latex.py::omml_to_latex", "check": bad[0],
                         "inputs": {"xml": xml_of(d), "tree": d}, "expected": bad[1], "observed": bad[2], "tried": tried}
         which = "all"
+    if which == "all":
+        mm = validate_model(itertools.islice(scope(seed, budget=50), 0, 4000))
+        if mm is not None:
+            return {"reproduced": False, "note": "MODEL-MISMATCH (assumed library model contradicted natively): " + mm}
     for w in ([which] if which == "all" else [which, "all"]):       # any failing input of the property confirms
         for d in scope(seed):
             tried += 1
